@@ -1,31 +1,59 @@
 import Rustic.Model.CommandTable
 import Driver.Util
 /- Channel `c15` (generator side: harness/src/c15.rs):
-   c15 ao <cmd,cmd,…>       -> ok <cmd>=<result>:<kinds>,…     sequence on an append-only repository (two snapshots)
-   c15 dry <damage> <cmd>   -> ok <cmd>=-                       a dry-run flag issues no storage operation at all -/
+   c15 ao <cmd,cmd,…>           = c15 aox plain <cmd,…>
+   c15 aox <setup> <cmd,cmd,…>  -> ok <cmd>=<result>:<kinds>,…   sequence on an append-only repository (two snapshots);
+                                   setup plain | hc (hot/cold) | dmg | hcdmg (damaged: coarse `refused|ran:<kinds>`)
+   c15 dry <damage> <cmd>       -> ok <cmd>=-                     a dry-run flag issues no storage operation at all
+   c15 dryt <damage> <cmd>      -> ok <cmd>=- twin=<result>:<kinds of the non-dry twin> -/
 namespace Driver.C15
 open Rustic.CommandTable
 
 def runSeq : Scen → List String → List String → Option (List String)
   | _, [], acc => some acc.reverse
   | s, c :: cs, acc =>
-    match expected s c with
+    match observe s c with
     | none => none
-    | some (res, kinds, s') => runSeq s' cs ((c ++ "=" ++ res ++ ":" ++ kinds) :: acc)
+    | some (line, s') => runSeq s' cs (line :: acc)
+
+def scenOf : String → Option Scen
+  | "plain" => some {}
+  | "hc" => some { hotCold := true }
+  | "dmg" => some { damaged := true }
+  | "hcdmg" => some { hotCold := true, damaged := true }
+  | _ => none
+
+def damages : List String := ["none", "index", "pack", "dmg", "hc", "hcdmg", "hcmiss", "hcmissp", "hcpack", "hcindex"]
+
+/-- a dry-run flag on a repository that is not append-only: no operation (whatever the result). -/
+def dryOk (damage cmd : String) : Bool :=
+  damages.contains damage &&
+  (match cmdOfToken cmd with
+   | some c =>
+     c.isDryRun &&
+     (match run (isHotColdDamage damage) false c with
+      | .runs [] => true
+      | .refused _ => true          -- hot/cold repair on a repository without hot part
+      | _ => false)
+   | none => false)
 
 def handle : List String → String
   | ["ao", seq] =>
     match runSeq {} (seq.splitOn ",") [] with
     | some out => "ok " ++ ",".intercalate out
     | none => "bad-op"
-  | ["dry", damage, cmd] =>
-    if damage ≠ "none" ∧ damage ≠ "index" ∧ damage ≠ "pack" then "bad-op" else
-    match cmdOfToken cmd with
-    | some c =>
-      if !c.isDryRun then "bad-op" else
-      match run false c with
-      | .runs [] => "ok " ++ cmd ++ "=-"
-      | _ => "bad-op"
+  | ["aox", setup, seq] =>
+    match scenOf setup with
+    | none => "bad-op"
+    | some s =>
+      match runSeq s (seq.splitOn ",") [] with
+      | some out => "ok " ++ ",".intercalate out
+      | none => "bad-op"
+  | ["dry", damage, cmd] => if dryOk damage cmd then "ok " ++ cmd ++ "=-" else "bad-op"
+  | ["dryt", damage, cmd] =>
+    if !dryOk damage cmd then "bad-op" else
+    match dryTwin damage cmd with
+    | some (res, ops) => "ok " ++ cmd ++ "=- twin=" ++ res ++ ":" ++ showKinds ops
     | none => "bad-op"
   | _ => "bad-op"
 
